@@ -10,14 +10,16 @@
    the semantic readings use the Section hypotheses `checker_sound_complete` / `checker_raises_ptc_only`
    about `assert_matches1 cfg ctx` and become closed statements about the model of the whole library by one
    application to the C01/C02 lemmas.
-     * "the body does not run and the call raises" (`C03_args_guard_partial`) is proved for every callable whose signature has no
-       positional-only parameter (`sig_ok`; refuted with one: `C03_posonly_name_as_keyword_refuted`) and every call whose receiver
-       is described over ground-truth fields by `recv_known` (Proofs/PedanticPos.v: a method with its receiver, a function / static
-       method, a bound class method; also through an instance); the arithmetic `star_offset_ok` of the model follows from it
-       (star_offset_of_known).  On the K10 call `self=...` the description does not apply, the conclusion holds there all the same:
-       `C03_self_by_keyword_refuted` shows (Raise IndexError, []).
-     * positional values bound to NAMED parameters ("whichever parameter position"): `C03_positional_value_guard_partial` under
-       `recv_consistent` and "no defaulted parameter is filled positionally" (refuted otherwise: `C03_defaulted_positional_refuted`),
+     * "the body does not run and the call raises" (`C03_args_guard_partial`) is proved for EVERY value of the call - explicit
+       keyword, omitted-but-defaulted, *args element, **kwargs value, and a positional value bound to a named parameter whether or
+       not it has a default ("whichever parameter position": `c03_values_bad`) - for every signature CPython can build, positional-
+       only parameters included (`sig_ok`), since /repo f0d33a4 / b2616e5 (FunctionCall._check_type_param walks the parameters in
+       lock-step with CPython's binding: Proofs/PedanticPos.v `lockstep`).  Guards: the receiver is described over ground-truth
+       fields (`recv_fine`: the wrapper gets exactly the receiver the undecorated callable gets - a method with its receiver, a
+       function / static method, a bound class method - or, for static and class methods reached through an instance, the keyword
+       discipline applies), and the call is outside the K4 region (`not_stripped`: a single positional value stripped as if it were
+       the receiver; refuted inside: `C03_first_positional_stripped_refuted`).  On the K10 call `self=...` the description does
+       not apply, the conclusion holds there all the same: `C03_self_by_keyword_refuted` shows (Raise IndexError, []).
      * "what is raised is PedanticTypeCheckException" is FALSE in five regions where another exception
        escapes first - IndexError (self by keyword, '@staticmethod' in the text) or PedanticCallWithArgsException
        (a variadic parameter not spelled "star args", receiver not called self, '@pedantic' in the text of a class method) - and a
@@ -39,14 +41,13 @@ Proof. vm_compute. reflexivity. Qed.
 Print Assumptions C03_cfg_good.
 
 (* ---------------- relative to any checker, no hypothesis ---------------- *)
-(* if the checker rejects a supplied value (whatever TypeVar bindings it is given), the call raises and the
-   journal of the body is empty.  `recv_known f c` describes, over ground-truth fields, how the receiver reaches the wrapper and
-   the undecorated callable (method with its receiver / function or static method / bound class method). *)
+(* if the checker rejects a value of the call (whatever TypeVar bindings it is given), the call raises and the
+   journal of the body is empty.  `all_values f c b` = supplied_of ++ positional_values, read off CPython's own binding b. *)
 Theorem C03_args_guard_relative_partial : forall pc check consumes f c bd b a v,
-  pc_good pc = true -> sig_ok f = true -> recv_known f c -> twin_binding f c = Ok b ->
-  In (Some a, v) (supplied_of f c b) -> rejected check a v ->
+  pc_good pc = true -> sig_ok f = true -> recv_fine pc f c -> twin_binding f c = Ok b -> not_stripped pc f c ->
+  In (Some a, v) (all_values f c b) -> rejected check a v ->
   snd (run pc check consumes f c bd) = [] /\ exists e, fst (run pc check consumes f c bd) = Raise e.
-Proof. intros. eapply args_guard; try eassumption. eapply star_offset_of_known; eassumption. Qed.
+Proof. intros. eapply guard; eassumption. Qed.
 Print Assumptions C03_args_guard_relative_partial.
 
 (* `model_binding pc f c` is the binding with which run invokes the body: the hypothesis only speaks about what the body does
@@ -61,10 +62,10 @@ Print Assumptions C03_result_guard_relative.
 (* ---------------- generator functions ---------------- *)
 (* calling the generator function: a rejected supplied value => no generator object, nothing ran *)
 Theorem C03_generator_call_guard_relative_partial : forall pc check consumes f c b a v,
-  pc_good pc = true -> sig_ok f = true -> recv_known f c -> twin_binding f c = Ok b ->
-  In (Some a, v) (supplied_of f c b) -> rejected check a v ->
+  pc_good pc = true -> sig_ok f = true -> recv_fine pc f c -> twin_binding f c = Ok b -> not_stripped pc f c ->
+  In (Some a, v) (all_values f c b) -> rejected check a v ->
   snd (run_gen pc check consumes f c) = [] /\ exists e, fst (run_gen pc check consumes f c) = Raise e.
-Proof. intros. eapply args_guard_gen; try eassumption. eapply star_offset_of_known; eassumption. Qed.
+Proof. intros. eapply guard_gen; eassumption. Qed.
 Print Assumptions C03_generator_call_guard_relative_partial.
 
 (* iterating: for EVERY generator body, every yield / send / return type and every sequence of next / send / close
@@ -114,19 +115,27 @@ Section Relative.
     apply checker_sound_complete; [assumption|]. destruct (conforms ctx a v); try discriminate; reflexivity.
   Qed.
 
+  Lemma values_bad_in : forall f c, c03_values_bad ctx f c = true ->
+    exists b a v, twin_binding f c = Ok b /\ In (Some a, v) (all_values f c b) /\ supported ctx a = true /\ rejected check a v.
+  Proof.
+    intros f c H. unfold c03_values_bad, c03_supplied_bad, c03_positional_bad in H.
+    destruct (twin_binding f c) as [b|] eqn:Eb; [|discriminate]. exists b.
+    assert (Hex : existsb (fun av => bad ctx (fst av) (snd av)) (all_values f c b) = true).
+    { unfold all_values. rewrite existsb_app. exact H. }
+    apply existsb_exists in Hex as [[oa v] [Hin Hbad]]. simpl in Hbad.
+    destruct (bad_rejected _ _ Hbad) as [a [-> [Hs Hrej]]]. exists a, v. repeat split; assumption.
+  Qed.
+
   (* C03, first sentence: for every callable whose signature CPython can build (sig_ok), every call, every
-     body: a non-conforming supplied value => the call raises, the body has not run *)
+     body: a non-conforming value => the call raises, the body has not run *)
   Theorem C03_args_guard_partial : forall pc consumes f c bd,
-    pc_good pc = true -> sig_ok f = true -> recv_known f c ->
-    c03_supplied_bad ctx f c = true ->
+    pc_good pc = true -> sig_ok f = true -> recv_fine pc f c -> not_stripped pc f c ->
+    c03_values_bad ctx f c = true ->
     snd (run pc check consumes f c bd) = [] /\ exists e, fst (run pc check consumes f c bd) = Raise e.
   Proof.
-    intros pc consumes f c bd G Hsig Hrk H. unfold c03_supplied_bad in H.
-    destruct (twin_binding f c) as [b|] eqn:Eb; [|discriminate].
-    pose proof (star_offset_of_known f c b Eb Hrk) as Hoff.
-    apply existsb_exists in H as [[oa v] [Hin Hbad]]. simpl in Hbad.
-    destruct (bad_rejected _ _ Hbad) as [a [-> [_ Hrej]]].
-    eapply args_guard; eassumption.
+    intros pc consumes f c bd G Hsig Hrf Hns H.
+    destruct (values_bad_in f c H) as [b [a [v [Eb [Hin [_ Hrej]]]]]].
+    eapply guard; eassumption.
   Qed.
 
   (* ... and the exception is PedanticTypeCheckException, provided the call obeys the keyword discipline
@@ -134,20 +143,17 @@ Section Relative.
      three escapes is taken: `self` passed by keyword (K10), '@staticmethod' in the text of a module-level
      function (K2); (a var-positional parameter not spelled *args makes the discipline test fail: K2) *)
   Theorem C03_args_guard_exact_partial : forall pc consumes f c bd,
-    pc_good pc = true -> sig_ok f = true -> recv_known f c ->
-    c03_supplied_bad ctx f c = true ->
+    pc_good pc = true -> sig_ok f = true -> recv_fine pc f c -> not_stripped pc f c ->
+    c03_values_bad ctx f c = true ->
     assert_uses_kwargs pc f c = Ok tt ->
     (is_instance_method f = true -> wargs c <> []) ->
     (forall inst, instance_of f c = Ok inst -> clazz_probe f c inst = Ok tt) ->
     forallb (fun p => match p_ann p with Some a => supported ctx a | None => true end) (f_params f) = true ->
     run pc check consumes f c bd = (Raise PTypeCheckC, []).
   Proof.
-    intros pc consumes f c bd G Hsig Hrk H Hauk Hinst Hprobe Hsup. unfold c03_supplied_bad in H.
-    destruct (twin_binding f c) as [b|] eqn:Eb; [|discriminate].
-    pose proof (star_offset_of_known f c b Eb Hrk) as Hoff.
-    apply existsb_exists in H as [[oa v] [Hin Hbad]]. simpl in Hbad.
-    destruct (bad_rejected _ _ Hbad) as [a [-> [_ Hrej]]].
-    eapply args_guard_exact; try eassumption.
+    intros pc consumes f c bd G Hsig Hrf Hns H Hauk Hinst Hprobe Hsup.
+    destruct (values_bad_in f c H) as [b [a [v [Eb [Hin [_ Hrej]]]]]].
+    eapply guard_exact; try eassumption.
     intros p a0 Hp Ha v0 tv e He. eapply checker_raises_ptc_only; [|exact He].
     rewrite forallb_forall in Hsup. specialize (Hsup p Hp). now rewrite Ha in Hsup.
   Qed.
@@ -158,30 +164,14 @@ Section Relative.
     pc_good pc = true ->
     setter_value_bad ctx f c = true ->
     t_setter (f_text f) = true -> is_instance_method f = true ->
-    declared f = [p] -> params_without_self f = declared f -> is_star p = false -> p_default p = None ->
+    declared f = [p] -> params_without_self f = declared f -> takes_positional p = true ->
     c_recv c = [r] -> kw_get (p_name p) (c_kwargs c) = None ->
     snd (run pc check consumes f c bd) = [] /\ exists e, fst (run pc check consumes f c bd) = Raise e.
   Proof.
-    intros pc consumes f c bd p r G H Hts Him Hd Hpw Hstar Hdef Hr Hk. unfold setter_value_bad in H. rewrite Hd in H.
+    intros pc consumes f c bd p r G H Hts Him Hd Hpw Htp Hr Hk. unfold setter_value_bad in H. rewrite Hd in H.
     apply andb_true_iff in H as [_ H]. destruct (c_args c) as [|x [|y l]] eqn:Ex; try discriminate.
     destruct (bad_rejected _ _ H) as [a [Ha [_ Hrej]]].
     eapply setter_guard; try eassumption. congruence.
-  Qed.
-
-  (* "whichever parameter position it is in": a positional value that CPython binds to a NAMED parameter and that does not conform
-     => the call raises, the body has not run.  Guards: the receiver is described by `recv_consistent` (the wrapper gets exactly the
-     receiver the undecorated callable gets), and no DEFAULTED parameter is filled positionally (its default would be checked in
-     place of the value: C03_defaulted_positional_refuted).  Where positional calls are not allowed the call is rejected earlier. *)
-  Theorem C03_positional_value_guard_partial : forall pc consumes f c bd b,
-    pc_good pc = true -> sig_ok f = true -> recv_consistent f c ->
-    twin_binding f c = Ok b -> no_defaulted_positional f b = true ->
-    c03_positional_bad ctx f c = true ->
-    snd (run pc check consumes f c bd) = [] /\ exists e, fst (run pc check consumes f c bd) = Raise e.
-  Proof.
-    intros pc consumes f c bd b G Hsig Hrc Hb Hnd H. unfold c03_positional_bad in H. rewrite Hb in H.
-    apply existsb_exists in H as [[oa v] [Hin Hbad]]. simpl in Hbad.
-    destruct (bad_rejected _ _ Hbad) as [a [-> [_ Hrej]]].
-    eapply positional_guard; eassumption.
   Qed.
 
   (* C03, second sentence: a non-conforming produced value never reaches the caller (the hypothesis speaks about the binding the
@@ -225,7 +215,6 @@ End Relative.
 Print Assumptions C03_args_guard_partial.
 Print Assumptions C03_args_guard_exact_partial.
 Print Assumptions C03_setter_guard_partial.
-Print Assumptions C03_positional_value_guard_partial.
 Print Assumptions C03_result_guard.
 Print Assumptions C03_result_guard_exact_partial.
 
@@ -233,24 +222,26 @@ Print Assumptions C03_result_guard_exact_partial.
 (* the hypotheses discharged by the C01 / C02 theorems (Proofs/CheckerTop.v via Proofs/PedanticChecker.v): `run1` is the
    call protocol over the REGENERATED pedantic_cfg with the checker model over the REGENERATED checker tables *)
 Theorem C03_args_guard_closed_partial : forall ctx f c bd,
-  sig_ok f = true -> recv_known f c -> c03_supplied_bad ctx f c = true ->
+  sig_ok f = true -> recv_fine Gen.Pedantic.pedantic_cfg f c -> not_stripped Gen.Pedantic.pedantic_cfg f c ->
+  c03_values_bad ctx f c = true ->
   snd (run1 ctx f c bd) = [] /\ exists e, fst (run1 ctx f c bd) = Raise e.
 Proof.
-  intros ctx f c bd Hs Ho H. unfold run1.
-  exact (C03_args_guard_partial gcfg ctx (checker1_rejects ctx) _ _ f c bd C03_cfg_good Hs Ho H).
+  intros ctx f c bd Hs Ho Hn H. unfold run1.
+  exact (C03_args_guard_partial gcfg ctx (checker1_rejects ctx) _ _ f c bd C03_cfg_good Hs Ho Hn H).
 Qed.
 Print Assumptions C03_args_guard_closed_partial.
 
 Theorem C03_args_guard_exact_closed_partial : forall ctx f c bd,
-  sig_ok f = true -> recv_known f c -> c03_supplied_bad ctx f c = true ->
+  sig_ok f = true -> recv_fine Gen.Pedantic.pedantic_cfg f c -> not_stripped Gen.Pedantic.pedantic_cfg f c ->
+  c03_values_bad ctx f c = true ->
   assert_uses_kwargs Gen.Pedantic.pedantic_cfg f c = Ok tt ->
   (is_instance_method f = true -> wargs c <> []) ->
   (forall inst, instance_of f c = Ok inst -> clazz_probe f c inst = Ok tt) ->
   forallb (fun p => match p_ann p with Some a => supported ctx a | None => true end) (f_params f) = true ->
   run1 ctx f c bd = (Raise PTypeCheckC, []).
 Proof.
-  intros ctx f c bd Hs Ho H Ha Hi Hp Hsup. unfold run1.
-  exact (C03_args_guard_exact_partial gcfg ctx (checker1_rejects ctx) (checker1_raises_ptc_only ctx) _ _ f c bd C03_cfg_good Hs Ho H Ha Hi Hp Hsup).
+  intros ctx f c bd Hs Ho Hn H Ha Hi Hp Hsup. unfold run1.
+  exact (C03_args_guard_exact_partial gcfg ctx (checker1_rejects ctx) (checker1_raises_ptc_only ctx) _ _ f c bd C03_cfg_good Hs Ho Hn H Ha Hi Hp Hsup).
 Qed.
 Print Assumptions C03_args_guard_exact_closed_partial.
 
@@ -281,7 +272,7 @@ Print Assumptions C03_result_guard_exact_closed_partial.
 Theorem C03_setter_guard_closed_partial : forall ctx f c bd p r,
   setter_value_bad ctx f c = true ->
   t_setter (f_text f) = true -> is_instance_method f = true ->
-  declared f = [p] -> params_without_self f = declared f -> is_star p = false -> p_default p = None ->
+  declared f = [p] -> params_without_self f = declared f -> takes_positional p = true ->
   c_recv c = [r] -> kw_get (p_name p) (c_kwargs c) = None ->
   snd (run1 ctx f c bd) = [] /\ exists e, fst (run1 ctx f c bd) = Raise e.
 Proof.
@@ -289,16 +280,6 @@ Proof.
   exact (C03_setter_guard_partial gcfg ctx (checker1_rejects ctx) _ _ f c bd p r C03_cfg_good H).
 Qed.
 Print Assumptions C03_setter_guard_closed_partial.
-
-Theorem C03_positional_value_guard_closed_partial : forall ctx f c bd b,
-  sig_ok f = true -> recv_consistent f c -> twin_binding f c = Ok b -> no_defaulted_positional f b = true ->
-  c03_positional_bad ctx f c = true ->
-  snd (run1 ctx f c bd) = [] /\ exists e, fst (run1 ctx f c bd) = Raise e.
-Proof.
-  intros ctx f c bd b Hs Hr Hb Hn H. unfold run1.
-  exact (C03_positional_value_guard_partial gcfg ctx (checker1_rejects ctx) _ _ f c bd b C03_cfg_good Hs Hr Hb Hn H).
-Qed.
-Print Assumptions C03_positional_value_guard_closed_partial.
 
 (* ---------------- generator functions, closed ---------------- *)
 (* what the call of a generator function returns: a wrapper whose yield / send / return types are read off the return annotation
@@ -422,52 +403,56 @@ Proof.
 Qed.
 Print Assumptions C03_pedantic_text_refuted.
 
-(* a positional-only parameter whose NAME is used as a key of **kwargs: the first pass takes that keyword for the parameter, the
-   (non-conforming) default that CPython really binds is never checked and the body runs: why `sig_ok` excludes positional-only *)
-Theorem C03_posonly_name_as_keyword_refuted : exists f c bd,
-  recv_consistent f c /\ c03_args_bad ctx0 f c = true /\ fst (run1 ctx0 f c bd) = Ok (VInt 1%Z) /\ snd (run1 ctx0 f c bd) <> [].
-Proof.
-  exists (func "f" [par a_ PosOnly AInt (Some vx); par 8 VarKw AAny None] plain_text), (kwcall [] [(a_, VInt 1%Z)]), (returns (VInt 1%Z)).
-  split; [right; left; repeat split; reflexivity|]. repeat split; try reflexivity. vm_compute. discriminate.
-Qed.
-Print Assumptions C03_posonly_name_as_keyword_refuted.
-
-(* a DEFAULTED parameter filled positionally: _check_type_param checks the default in place of the value the caller wrote:
-   def f(a: int = 0, *args: str); f('bad', 'x') runs the body with a = 'bad' *)
-Theorem C03_defaulted_positional_refuted : exists f c bd,
-  sig_ok f = true /\ recv_consistent f c /\ c03_positional_bad ctx0 f c = true
+(* K4: the single positional value of a call is stripped as if it were the receiver (@pedantic above a second decorator,
+   '@staticmethod' in the text, static methods of a @pedantic_class ...): the keyword test passes, the first pass checks the
+   DEFAULT, the body runs with the value: st('x') on def st(a: int = 0) - why the theorems assume `not_stripped` *)
+Theorem C03_first_positional_stripped_refuted : exists f c bd,
+  sig_ok f = true /\ recv_consistent f c /\ c03_values_bad ctx0 f c = true
   /\ fst (run1 ctx0 f c bd) = Ok (VInt 1%Z) /\ snd (run1 ctx0 f c bd) <> [].
 Proof.
-  exists (func "f" [par a_ PosOrKw AInt (Some (VInt 0%Z)); par args_ VarPos AStrC None] (tflags true false false true 1)),
-         (poscall [] [vx; vx] []), (returns (VInt 1%Z)).
+  exists f_stacked, (poscall [] [vx] []), (returns (VInt 1%Z)).
   split; [reflexivity|]. split; [right; left; repeat split; reflexivity|]. repeat split; try reflexivity. vm_compute. discriminate.
 Qed.
-Print Assumptions C03_defaulted_positional_refuted.
+Print Assumptions C03_first_positional_stripped_refuted.
 
-(* the same through an exempt dunder method of a @pedantic_class: K()('x') on __call__(self, x: int = 0) *)
-Theorem C03_exempt_defaulted_positional_refuted : exists f c bd,
-  sig_ok f = true /\ recv_consistent f c /\ c03_positional_bad ctx0 f c = true
-  /\ fst (run1 ctx0 f c bd) = Ok (VInt 1%Z) /\ snd (run1 ctx0 f c bd) <> [].
+(* ---------------- repaired in /repo (fixed findings; the witnesses are now inside the theorems) ---------------- *)
+(* b2616e5: a positional-only parameter whose NAME is used as a key of **kwargs: the keyword belongs to **kwargs, the default
+   CPython really binds is checked: def f(a: int = 'x', /, **kw); f(a=1) is rejected *)
+Example C03_posonly_name_as_keyword_repaired :
+  let f := func "f" [par a_ PosOnly AInt (Some vx); par 8 VarKw AAny None] plain_text in
+  let c := kwcall [] [(a_, VInt 1%Z)] in
+  sig_ok f = true /\ recv_consistent f c /\ c03_values_bad ctx0 f c = true /\ run1 ctx0 f c (returns (VInt 1%Z)) = (Raise PTypeCheckC, []).
+Proof. split; [reflexivity|]. split; [right; left; repeat split; reflexivity|]. split; reflexivity. Qed.
+
+(* f0d33a4: a DEFAULTED parameter filled positionally is checked like any other: def f(a: int = 0, *args: str);
+   f('bad', 'x') is rejected, f(1, 'x') runs the body; K()('x') on __call__(self, x: int = 0) is rejected *)
+Example C03_defaulted_positional_repaired :
+  let f := func "f" [par a_ PosOrKw AInt (Some (VInt 0%Z)); par args_ VarPos AStrC None] (tflags true false false true 1) in
+  let k := method "__call__" self_name [par b_ PosOrKw AInt (Some (VInt 0%Z))] (tflags false false false false 0) in
+  sig_ok f = true /\ c03_values_bad ctx0 f (poscall [] [vx; vx] []) = true
+  /\ run1 ctx0 f (poscall [] [vx; vx] []) (returns (VInt 1%Z)) = (Raise PTypeCheckC, [])
+  /\ run1 ctx0 f (poscall [] [VInt 1%Z; vx] []) (returns (VInt 1%Z)) = twin f (poscall [] [VInt 1%Z; vx] []) (returns (VInt 1%Z))
+  /\ c03_values_bad ctx0 k (poscall [k_inst] [vx] []) = true
+  /\ run1 ctx0 k (poscall [k_inst] [vx] []) (returns (VInt 1%Z)) = (Raise PTypeCheckC, []).
+Proof. repeat split; reflexivity. Qed.
+
+(* (model-level observation, not a theorem and not expressible with the classes the harness generates) the part of `recv_fine`
+   that is needed: a static method of a @pedantic_class that may be called positionally ("*args" in its text), reached through an
+   instance - the wrapper receives the instance, the first pass takes it for the value of the first parameter, the (bad) default
+   CPython really binds is not checked.  Same root as the open finding C04-receiver-under-varargs-static. *)
+Example C03_static_through_instance_observation :
+  let s := {| f_name := "s"; f_dotted := true; f_params := [par a_ PosOrKw (ACls (CUser [5])) (Some (VInt 5%Z)); par args_ VarPos AInt None];
+              f_bound := None; f_first_arg := Some a_; f_ret := Some AInt; f_coroutine := false; f_generator := false;
+              f_text := tflags true true false false 1; f_setter := false; f_recv := false |} in
+  let c := {| c_recv := [k_inst]; c_twin_recv := []; c_args := []; c_kwargs := [] |} in
+  recv_known s c /\ c03_values_bad ctx0 s c = true /\ snd (run1 ctx0 s c (returns (VInt 1%Z))) <> [].
 Proof.
-  exists (method "__call__" self_name [par b_ PosOrKw AInt (Some (VInt 0%Z))] (tflags false false false false 0)),
-         (poscall [k_inst] [vx] []), (returns (VInt 1%Z)).
-  split; [reflexivity|]. split.
-  { left. repeat split; try reflexivity. eexists _, _, k_inst. repeat split; reflexivity. }
-  repeat split; try reflexivity. vm_compute. discriminate.
+  split; [right; left; repeat split; try reflexivity; intros; discriminate|]. split; [reflexivity|]. vm_compute. discriminate.
 Qed.
-Print Assumptions C03_exempt_defaulted_positional_refuted.
-
-(* (not a finding: no Python call produces this record) the receiver description matters to the MODEL: if the wrapper of a method
-   got no receiver while the undecorated method gets one, the first pass would skip a *args element *)
-Example C03_receiver_record_matters :
-  let c := {| c_recv := []; c_twin_recv := [k_inst]; c_args := [vx]; c_kwargs := [] |} in
-  sig_ok m_varargs = true /\ star_offset_ok m_varargs c = false /\ c03_args_bad ctx0 m_varargs c = true
-  /\ snd (run1 ctx0 m_varargs c (returns (VInt 1%Z))) <> [].
-Proof. repeat split; try reflexivity. vm_compute. discriminate. Qed.
 
 (* ---------------- the hypotheses are satisfiable / the model really rejects ---------------- *)
 Example C03_guards_satisfiable :
-  sig_ok f_plain = true /\ recv_consistent f_plain (kwcall [] [(a_, vx)]) /\ c03_args_bad ctx0 f_plain (kwcall [] [(a_, vx)]) = true
+  sig_ok f_plain = true /\ recv_consistent f_plain (kwcall [] [(a_, vx)]) /\ c03_values_bad ctx0 f_plain (kwcall [] [(a_, vx)]) = true
   /\ assert_uses_kwargs Gen.Pedantic.pedantic_cfg f_plain (kwcall [] [(a_, vx)]) = Ok tt
   /\ run1 ctx0 f_plain (kwcall [] [(a_, vx)]) (returns (VInt 1%Z)) = (Raise PTypeCheckC, []).
 Proof. split; [reflexivity|]. split; [right; left; repeat split; reflexivity|]. repeat split; reflexivity. Qed.
@@ -482,10 +467,8 @@ Proof. split; reflexivity. Qed.
 Example C03_star_behind_leading_positional_checked :
   let f := func "f" [par a_ PosOrKw AStrC None; par args_ VarPos AInt None] (tflags true false false true 1) in
   let m := method "m" self_name [par args_ VarPos AInt None] (tflags true false false false 0) in
-  star_offset_ok f (poscall [] [vx; VInt 1%Z; vx] []) = true
-  /\ c03_args_bad ctx0 f (poscall [] [vx; VInt 1%Z; vx] []) = true
+  c03_args_bad ctx0 f (poscall [] [vx; VInt 1%Z; vx] []) = true
   /\ run1 ctx0 f (poscall [] [vx; VInt 1%Z; vx] []) (returns (VInt 1%Z)) = (Raise PTypeCheckC, [])
-  /\ star_offset_ok m (poscall [k_inst] [VInt 1%Z; vx] []) = true
   /\ run1 ctx0 m (poscall [k_inst] [VInt 1%Z; vx] []) (returns (VInt 1%Z)) = (Raise PTypeCheckC, [])
   /\ run1 ctx0 m (poscall [k_inst] [VInt 1%Z; VInt 2%Z] []) (returns (VInt 1%Z)) = twin m (poscall [k_inst] [VInt 1%Z; VInt 2%Z] []) (returns (VInt 1%Z)).
 Proof. repeat split; reflexivity. Qed.
